@@ -70,25 +70,43 @@ def isIdent : List Char → Bool
 
 def keyText (jq : Bool) (k : List Char) : List Char := if jq && isIdent k then k else encodeString k
 
+/-! Layout.  `ind = 0` is the compact text (`tojson`, `to_jq`); `ind = n > 0` is
+    `tojson({indent:n})` (colorjson encodeArray/encodeMap/writeIndent with Indent n) and
+    `to_jq({indent:n})` (jq.jq: compound_newline "\n", separators ",\n", key_sep ": ", indent n
+    spaces per level): after `[`/`{` and after every `,` a line feed and depth·n spaces, before the
+    closing bracket a line feed and (depth−1)·n spaces, one space after `:`; empty containers
+    stay `[]` / `{}`. -/
+
+/-- line feed + indentation at nesting depth d -/
+def nl (ind d : Nat) : List Char := if ind = 0 then [] else '\n' :: List.replicate (d * ind) ' '
+
+def ksep (ind : Nat) : List Char := if ind = 0 then [] else [' ']
+
 mutual
-  def encode (jq : Bool) : JV → List Char
-    | .null => ['n', 'u', 'l', 'l']
-    | .bool true => ['t', 'r', 'u', 'e']
-    | .bool false => ['f', 'a', 'l', 's', 'e']
-    | .num i => encodeInt i
-    | .float => ['0', '.', '5']
-    | .str s => encodeString s
-    | .arr l => '[' :: encodeElems jq l ++ [']']
-    | .obj kvs => '{' :: encodeMembers jq kvs ++ ['}']
-  def encodeElems (jq : Bool) : List JV → List Char
-    | [] => []
-    | [v] => encode jq v
-    | v :: rest => encode jq v ++ ',' :: encodeElems jq rest
-  def encodeMembers (jq : Bool) : List (List Char × JV) → List Char
-    | [] => []
-    | [(k, v)] => keyText jq k ++ ':' :: encode jq v
-    | (k, v) :: rest => keyText jq k ++ ':' :: encode jq v ++ ',' :: encodeMembers jq rest
+  /-- `encodeI jq ind d v`: the text of v whose children sit at nesting depth d + 1 -/
+  def encodeI (jq : Bool) (ind : Nat) : Nat → JV → List Char
+    | _, .null => ['n', 'u', 'l', 'l']
+    | _, .bool true => ['t', 'r', 'u', 'e']
+    | _, .bool false => ['f', 'a', 'l', 's', 'e']
+    | _, .num i => encodeInt i
+    | _, .float => ['0', '.', '5']
+    | _, .str s => encodeString s
+    | _, .arr [] => ['[', ']']
+    | d, .arr (v :: l) => '[' :: nl ind (d + 1) ++ encodeElems jq ind (d + 1) (v :: l) ++ nl ind d ++ [']']
+    | _, .obj [] => ['{', '}']
+    | d, .obj (kv :: kvs) => '{' :: nl ind (d + 1) ++ encodeMembers jq ind (d + 1) (kv :: kvs) ++ nl ind d ++ ['}']
+  def encodeElems (jq : Bool) (ind : Nat) : Nat → List JV → List Char
+    | _, [] => []
+    | d, [v] => encodeI jq ind d v
+    | d, v :: rest => encodeI jq ind d v ++ ',' :: nl ind d ++ encodeElems jq ind d rest
+  def encodeMembers (jq : Bool) (ind : Nat) : Nat → List (List Char × JV) → List Char
+    | _, [] => []
+    | d, [(k, v)] => keyText jq k ++ ':' :: ksep ind ++ encodeI jq ind d v
+    | d, (k, v) :: rest => keyText jq k ++ ':' :: ksep ind ++ encodeI jq ind d v ++ ',' :: nl ind d ++ encodeMembers jq ind d rest
 end
+
+/-- compact text -/
+def encode (jq : Bool) (v : JV) : List Char := encodeI jq 0 0 v
 
 /-! ### canonical objects -/
 
